@@ -42,7 +42,7 @@ type raceWorkerViol struct {
 
 // runFree executes one case with free-running goroutines and judges it.
 func runFree(c concCase, rep reporter, st *Stats) (outcome string, err error) {
-	w, err := newWorld(worldOpts{kind: c.Kind, stores: []string{c.Store}, rep: rep, st: st})
+	w, err := newWorld(worldOpts{kind: c.Kind, scheme: c.Scheme, stores: []string{c.Store}, rep: rep, st: st})
 	if err != nil {
 		return "", err
 	}
@@ -160,7 +160,7 @@ func raceWorker() {
 	)
 	out.Sample = map[string]string{}
 	var cases []concCase
-	for _, c := range concCases(false) {
+	for _, c := range concCasesOf(false, "wide") {
 		if !c.Timer { // the timer step needs the scheduler
 			cases = append(cases, c)
 		}
@@ -177,7 +177,7 @@ func raceWorker() {
 				if !seen[sig] {
 					seen[sig] = true
 					out.Violations = append(out.Violations, raceWorkerViol{Sig: sig, What: what,
-						Doc: replayDoc{Kind: c.Kind, Stores: []string{c.Store}, Conc: &concDoc{Prefix: c.Prefix, Threads: c.Threads, Free: true}}})
+						Doc: replayDoc{Kind: c.Kind, Scheme: c.Scheme, Stores: []string{c.Store}, Conc: &concDoc{Prefix: c.Prefix, Threads: c.Threads, Free: true}}})
 				}
 			}
 			func() {
